@@ -500,6 +500,9 @@ fn sweep(valid: &[u8], maxd: usize) -> Vec<(Vec<u8>, String)> {
         // long text in which every even / every odd byte offset from 15 on falls inside a two-byte character
         ("long-multibyte-odd", json!(format!("{}{}", "x".repeat(15), "é".repeat(300)))), ("long-multibyte-even", json!(format!("{}{}", "x".repeat(16), "é".repeat(300)))),
         ("long-four-byte", json!(format!("{}{}", "x".repeat(13), "\u{10348}".repeat(150)))),
+        // text around the separators identifiers and URIs are split at
+        ("colon-first", json!(":credential-1")), ("colon-only", json!(":")), ("colon-last", json!("x:")), ("two-colons", json!("::")), ("slash", json!("/")), ("hash", json!("#")),
+        ("digit-scheme", json!("1a:b")), ("space", json!(" ")), ("legacy-parts-empty", json!(":2::")), ("legacy-creddef-empty-parts", json!(":3:CL::")),
     ];
     let mut out = vec![];
     for p in ps.iter() {
@@ -537,6 +540,20 @@ fn sweep(valid: &[u8], maxd: usize) -> Vec<(Vec<u8>, String)> {
             if let Some(Value::Object(o)) = at(&mut d, parent) {
                 o.remove(last);
                 out.push((serde_json::to_vec(&d).unwrap(), "sweep-key-removed".to_string()));
+            }
+        }
+    }
+    // members the library's own documents leave out: an `id` added to every object (root included) down to the depth swept
+    let mut objs: Vec<Vec<String>> = vec![vec![]];
+    objs.extend(ps.iter().cloned());
+    for p in objs.iter() {
+        for v in [json!(":credential-1"), json!(""), json!("x"), json!("a:b"), json!(7), Value::Null] {
+            let mut d = root.clone();
+            if let Some(Value::Object(o)) = at(&mut d, p) {
+                if !o.contains_key("id") {
+                    o.insert("id".to_string(), v);
+                    out.push((serde_json::to_vec(&d).unwrap(), "sweep-id-added".to_string()));
+                }
             }
         }
     }
